@@ -118,7 +118,7 @@ func (c *SCase[T]) ready(s *Sched, t *Thread) bool {
 	if c.ch == nil {
 		return false
 	}
-	if s.closed[c.p] {
+	if s.closed[c.p] != nil {
 		return true // proceeds and panics, as in Go
 	}
 	if cap(c.ch) > 0 {
@@ -129,7 +129,7 @@ func (c *SCase[T]) ready(s *Sched, t *Thread) bool {
 
 //go:norace
 func (c *SCase[T]) do(s *Sched, t *Thread, idx int) bool {
-	if s.closed[c.p] {
+	if s.closed[c.p] != nil {
 		panic("send on closed channel")
 	}
 	if cap(c.ch) > 0 {
@@ -270,10 +270,10 @@ func Close[T any](ch chan<- T) {
 	if s := S; s != nil {
 		s.point(OpClose, nil, nil)
 		p := reflect.ValueOf(ch).Pointer()
-		if s.closed[p] {
+		if s.closed[p] != nil {
 			panic("close of closed channel")
 		}
-		s.closed[p] = true
+		s.closed[p] = ch
 	}
 	close(ch)
 }
